@@ -390,28 +390,7 @@ func checkC13(e *Engine, r *Report) {
 			}
 		})
 		r.Check(okS && okF, "ApplyMessageWithConfig › status ⇔ execResult.Err == nil", e.Pos(amwc.Pos()), "Successful only when Err == nil, Failed only when Err != nil", "the receipt status does not follow the EVM execution error")
-		// cumulative = own + previous
-		okC := false
-		for _, l := range loopsOf(amwc) {
-			for _, i := range ifs(amwc) {
-				b, isB := i.Cond.(*ssa.BinOp)
-				if !isB || b.Op != token.LSS || !l.Body[i.Block()] {
-					continue
-				}
-				if hasFieldLoad(sliceFrom(b.Y), "TxConfig", "TxIndex") {
-					okC = true
-				}
-			}
-		}
-		okOwn := false
-		allInstrs(amwc, false, func(_ *ssa.Function, _ *ssa.BasicBlock, i ssa.Instruction) {
-			if st, ok := i.(*ssa.Store); ok {
-				if fa, ok := st.Addr.(*ssa.FieldAddr); ok && fieldName(fa) == "CumulativeGasUsed" {
-					sl := sliceFrom(st.Val)
-					okOwn = hasFieldLoad(sl, "ExecutionResult", "UsedGas") && sl.HasCall(CallSpec{pkgEvmKeeper, "Keeper", "GetGasUsedForTdxIndexTransient"})
-				}
-			}
-		})
+		okC, okOwn := cumulativeGasShape(e)
 		r.Check(okC && okOwn, "ApplyMessageWithConfig › cumulative gas = own + Σ previous slots", e.Pos(amwc.Pos()), "gasUsed + Σ_{i<TxIndex} slot(i)", "the receipt's cumulative gas is not this transaction's gas plus the gas slots of the transactions before it")
 		// contract address in EthereumTx
 		var caStores []*ssa.Store
@@ -533,4 +512,30 @@ func checkC13(e *Engine, r *Report) {
 
 func hasMethodCall(s *Slice, name string) bool {
 	return s.Has(func(v ssa.Value) bool { c, ok := v.(*ssa.Call); return ok && isMethodNamed(c, name) })
+}
+
+// cumulativeGasShape: in ApplyMessageWithConfig the receipt's cumulative gas is this transaction's own gas plus the gas
+// slots of the transactions before it (loop over index < TxConfig.TxIndex). Shared by C13-R4 and C05-R7.
+func cumulativeGasShape(e *Engine) (loopOK, ownOK bool) {
+	amwc := e.Fn(pkgEvmKeeper, "Keeper.ApplyMessageWithConfig")
+	for _, l := range loopsOf(amwc) {
+		for _, i := range ifs(amwc) {
+			b, isB := i.Cond.(*ssa.BinOp)
+			if !isB || b.Op != token.LSS || !l.Body[i.Block()] {
+				continue
+			}
+			if hasFieldLoad(sliceFrom(b.Y), "TxConfig", "TxIndex") {
+				loopOK = true
+			}
+		}
+	}
+	allInstrs(amwc, false, func(_ *ssa.Function, _ *ssa.BasicBlock, i ssa.Instruction) {
+		if st, ok := i.(*ssa.Store); ok {
+			if fa, ok := st.Addr.(*ssa.FieldAddr); ok && fieldName(fa) == "CumulativeGasUsed" {
+				sl := sliceFrom(st.Val)
+				ownOK = hasFieldLoad(sl, "ExecutionResult", "UsedGas") && sl.HasCall(CallSpec{pkgEvmKeeper, "Keeper", "GetGasUsedForTdxIndexTransient"})
+			}
+		}
+	})
+	return
 }
